@@ -32,6 +32,28 @@
   and its queue is only appended to (ERRORs for calls x served,
   meta events, testament events — the documented effects);
   invariant kept, no panic
+  [WP-C] … no panic independent of an earlier fuel marker: from     C04_no_panic_clean,
+  any state satisfying the invariant WITH THE FLAG RESET every      C04_no_panic_clean_reachable
+  atomic action leaves it `none`, a step at most a fuel marker
+  [WP-C] who can be ended: the dealer aborts only the session       C04_aborts_only_sender,
+  whose message it handles, the broker only the publisher (one      C04_publish_ends_only_sender,
+  exact case), a message handler only the sender                    C04_message_ends_only_sender
+  [WP-C] NOTHING EVER ENDS THE META SESSION (the theorem that       C04_meta_never_ends,
+  was false before the fix of audit-C §0): in every state           C04_meta_safe_preserved
+  reachable by inputs not using the meta key as a client key
+  (`ReachableK`) it is not in `ending`, no departure of it is
+  pending or deferred, its pending answers / retries cannot take
+  an abort branch (`MetaSafe`); kept by every atomic action
+  [WP-C] … over ALL inputs of the model's `Op` type the statement   C04_meta_never_ends_full (def),
+  is false: `.drop metaKey` (model artefact, not a router input)    C04_meta_never_ends_full_fails
+  [WP-C] a protocol violation AS AN INPUT (`stepOp (.msg k m)`,     C04_violation_input
+  through the busy/ending gate and the authorization gate): only
+  the sender's departure is queued; refused by an Authorizer ⇒ the
+  session is NOT ended
+  [WP-C] isolation over the WHOLE STEP of the input that ends x     C04_isolation_step,
+  (departure + meta events + testaments, run to quiescence):        C04_isolation_step_reachable
+  others' attachment, subscriptions, registrations, testaments
+  and calls not served by x are exactly as before
 
   WHY `_partial`.  `C04_no_panic_full` would say that the fuel markers never fire either.  That is
   a statement about the size of the task cascade of one input (a `kill_all` of n sessions queues n
@@ -51,9 +73,10 @@
   the meta session).
 -/
 import Nexus.L2.Proofs.RealmIsolation
+import Nexus.L2.Proofs.WpCIso
 
 namespace Nexus.C04
-open Nexus.L2 Nexus.L2.Realm Nexus.Gen.N
+open Nexus.L2 Nexus.L2.Realm Nexus.Gen.N Nexus.L2.WpC
 
 /-! ## No panic -/
 
@@ -157,5 +180,315 @@ theorem C04_isolation (r : Realm) (hi : RealmInv r) (x : SessKey) (mode : LeaveM
       show calleeRel (r.leave x mode).ds.d.regs id k ↔ _
       rw [hd, (syncRemoveSession_frame (env := env) hi.dinv x).2.2 id k]
       exact ⟨fun h => h.1, fun h => ⟨h, hk⟩⟩
+
+/-! ## No panic, whatever marker an earlier step left -/
+
+/-- The panic flag keeps its FIRST marker (`setPanic`), so `C04_no_panic_partial` alone would not see a
+    closed-peer send or a dealer panic that happens after a fuel marker of the model was set.  This
+    theorem closes that gap: from any state satisfying the invariant, WITH THE FLAG RESET TO `none`,
+    every atomic action — external input, internal task, call timeout, retry turn, departure — leaves
+    the flag `none`, and a whole input run to quiescence leaves at most a fuel marker.  So no Go-panic
+    site is reached after an earlier fuel marker either. -/
+theorem C04_no_panic_clean (r : Realm) (hi : RealmInv r) :
+    (∀ op, (({ r with panic := none } : Realm).stepOp op).panic = none) ∧
+    (∀ t, TaskOk t → (({ r with panic := none } : Realm).runTask t).panic = none) ∧
+    (∀ t, (({ r with panic := none } : Realm).timerDue t).panic = none) ∧
+    (∀ x ∈ r.retries, (({ r with panic := none } : Realm).retryDue x).panic = none) ∧
+    (∀ k mode, r.busy k = false → (({ r with panic := none } : Realm).leave k mode).panic = none) ∧
+    (∀ op, FuelOnly (({ r with panic := none } : Realm).step op).1.panic ∧
+           FuelOnly (({ r with panic := none } : Realm).step op).2.panic) := by
+  have hi0 : RealmInv ({ r with panic := none } : Realm) :=
+    hi.of_parts rfl hi.binv hi.dinv hi.bmem hi.dref hi.callers hi.retr hi.tasks hi.inb rfl
+  obtain ⟨a1, a2, a3, a4, a5⟩ := C04_no_panic_atomic _ hi0
+  exact ⟨a1, a2, a3, a4, a5, fun op => ⟨(step_inv hi0 (Or.inl rfl) op).2.2, (step_inv hi0 (Or.inl rfl) op).2.1⟩⟩
+
+/-- … in particular in every reachable state (whatever its flag holds). -/
+theorem C04_no_panic_clean_reachable (cfg : Config) (r : Realm) (h : Realm.Reachable cfg r) (op : Op) :
+    FuelOnly (({ r with panic := none } : Realm).step op).1.panic ∧
+    (({ r with panic := none } : Realm).stepOp op).panic = none :=
+  ⟨((C04_no_panic_clean r h.inv.1).2.2.2.2.2 op).1, (C04_no_panic_clean r h.inv.1).1 op⟩
+
+example : RealmInv ({ panic := some "model: task fuel exhausted" } : Realm) :=
+  (RealmInv.empty []).of_parts rfl (RealmInv.empty []).binv (RealmInv.empty []).dinv (RealmInv.empty []).bmem
+    (RealmInv.empty []).dref (RealmInv.empty []).callers (RealmInv.empty []).retr (RealmInv.empty []).tasks
+    (RealmInv.empty []).inb rfl
+
+/-! ## Who can be ended: the sender, and never the meta session -/
+
+/-- The dealer aborts nobody but the session whose message it is processing: `syncCall` at most the
+    caller, `syncYield` at most the yielding callee; cancel, error, register, unregister and the removal
+    of a session abort nobody. -/
+theorem C04_aborts_only_sender (env : DEnv) (s : DState) (k : SessKey) :
+    (∀ req opts proc args kw rnd, ∀ j ∈ (syncCall env s k req opts proc args kw rnd).aborts, j = k) ∧
+    (∀ req opts args kw progress canRetry, ∀ j ∈ (syncYield env s k req opts args kw progress canRetry).aborts, j = k) ∧
+    (∀ req opts args kw progress canRetry, pptScheme opts = "" →
+        (syncYield env s k req opts args kw progress canRetry).aborts = []) ∧
+    (∀ req mode reason errArgs, (syncCancel env s k req mode reason errArgs).aborts = []) ∧
+    (∀ req details err args kw, (syncError s k req details err args kw).aborts = []) ∧
+    (∀ req proc m invoke disclose fwd wampURI, (syncRegister s k req proc m invoke disclose fwd wampURI).aborts = []) ∧
+    (∀ req regId, (syncUnregister s k req regId).aborts = []) ∧
+    (syncRemoveSession env s k).aborts = [] :=
+  ⟨fun _ _ _ _ _ _ => syncCall_aborts _ _ _ _ _ _ _ _ _, fun _ _ _ _ _ _ => syncYield_aborts _ _ _ _ _ _ _ _ _,
+   fun _ _ _ _ _ _ hp => syncYield_aborts_nil _ _ _ _ _ _ _ _ _ hp, fun _ _ _ _ => syncCancel_aborts ..,
+   fun _ _ _ _ _ => syncError_aborts .., fun _ _ _ _ _ _ _ => syncRegister_aborts ..,
+   fun _ _ => syncUnregister_aborts .., syncRemoveSession_aborts ..⟩
+
+/-- The broker ends nobody but the publisher, and only in one case: a valid topic, payload passthru
+    (`ppt_scheme`) used, and the publisher has not announced the feature.  In every other case `ending`
+    and the task list (up to invocations for the meta session) are untouched. -/
+theorem C04_publish_ends_only_sender (r : Realm) (s : Session) (req : Nat) (opts : Dict) (topic : String)
+    (args : List WVal) (kw : Dict) :
+    ((validUri r.broker.strict "" topic &&
+        (pptScheme opts != "" && !s.hasFeature RolePublisher FeaturePayloadPassthruMode)) = true →
+      (handlePublish r s req opts topic args kw).ending = r.ending ++ [s.key]) ∧
+    ((validUri r.broker.strict "" topic &&
+        (pptScheme opts != "" && !s.hasFeature RolePublisher FeaturePayloadPassthruMode)) = false →
+      (handlePublish r s req opts topic args kw).ending = r.ending ∧
+      ∀ t ∈ (handlePublish r s req opts topic args kw).tasks, t ∈ r.tasks ∨ ∃ a b c d e, t = .metaInvoke a b c d e) := by
+  constructor
+  · intro h
+    simp only [Bool.and_eq_true] at h
+    unfold handlePublish
+    simp only [freshPub]
+    rw [if_neg (by simp [h.1])]
+    have : (pptScheme opts != "" && !s.hasFeature RolePublisher FeaturePayloadPassthruMode) = true := by
+      simp only [Bool.and_eq_true]; exact h.2
+    rw [if_pos this]
+    show (r.trySend _).ending ++ [s.key] = _
+    rw [trySend_ending]
+  · intro h
+    refine ⟨handlePublish_ending r s req opts topic args kw h, ?_⟩
+    obtain ⟨ts, hts, pts⟩ := handlePublish_tasks r s req opts topic args kw h
+    intro t ht
+    rw [hts] at ht
+    rcases List.mem_append.mp ht with ht | ht
+    · exact Or.inl ht
+    · exact Or.inr (pts t ht)
+
+-- non-vacuity: a publisher without the feature using `ppt_scheme` on a valid topic IS ended (and nobody else)
+example : let s : Session := { key := 5, details := [], roles := [], isLocal := false }
+    (handlePublish { clients := [s] } s 1 [(OptPPTScheme, .str "x")] "a.b" [] []).ending = [5] := by
+  decide +kernel
+
+/-- WHO CAN BE ENDED BY A MESSAGE: ITS SENDER.  Whatever message `m` the handler of session `s` processes,
+    in whatever state (authorization gate included): every key appended to `ending`, every `leave` task
+    queued, is `s.key`; apart from that only meta events / meta invocations are queued; a retry entry is
+    created only for a YIELD of `s`; the client table, the deferred departures and the meta session are
+    untouched.  (`Eff`, Nexus/L2/Proofs/WpCBase.lean.)  No hypothesis: this is a fact about the code
+    paths of `handleInboundMessages`, not about reachable states. -/
+theorem C04_message_ends_only_sender (r : Realm) (s : Session) (m : Msg) :
+    (∃ e, (handleMsg r s m).ending = r.ending ++ e ∧ ∀ j ∈ e, j = s.key) ∧
+    (∃ ts, (handleMsg r s m).tasks = r.tasks ++ ts ∧
+      ∀ t ∈ ts, (∃ mode, t = .leave s.key mode) ∨ (∃ p, t = .metaPub p) ∨ ∃ a b c d e, t = .metaInvoke a b c d e) ∧
+    (handleMsg r s m).clients = r.clients ∧ (handleMsg r s m).deferred = r.deferred ∧
+    (handleMsg r s m).metaS = r.metaS ∧
+    (∃ xs, (handleMsg r s m).retries = r.retries ++ xs ∧ ∀ x ∈ xs, x.callee = s.key ∧ ∃ req opts args kw, m = .yield req opts args kw) := by
+  have h := eff_handleMsg r s m
+  obtain ⟨ts, hts, pts⟩ := h.tasks
+  obtain ⟨xs, hxs, pxs⟩ := h.retries
+  refine ⟨h.ending, ⟨ts, hts, ?_⟩, h.clients, h.deferred, h.metaS, ⟨xs, hxs, ?_⟩⟩
+  · intro t ht
+    have := pts t ht
+    cases t with
+    | leave j mode => exact Or.inl ⟨mode, by rw [show j = s.key from this]⟩
+    | metaMsg m => exact absurd this id
+    | inMsg k m => exact absurd this id
+    | metaPub p => exact Or.inr (Or.inl ⟨p, rfl⟩)
+    | metaInvoke a b c d e => exact Or.inr (Or.inr ⟨a, b, c, d, e, rfl⟩)
+  · intro x hx
+    obtain ⟨req, opts, args, kw, hm, rfl⟩ := pxs x hx
+    exact ⟨rfl, req, opts, args, kw, hm⟩
+
+/-- NOTHING EVER ENDS THE META SESSION.  In every state reachable by inputs that do not use the meta
+    session's key as a client key (`ReachableK`: no `join`/`drop` names `metaKey`; session keys are the
+    model's names, the router draws random ids different from the meta id): the meta session is not in
+    `ending`, no departure of it is pending or deferred, no client is stored under its key, it announces
+    the publisher payload-passthru feature, every answer it has pending is a `YIELD` with empty options or
+    an `ERROR(INVOCATION)`, and a retried YIELD of it carries no `ppt_scheme` (`MetaSafe`).  So the realm
+    never loses the goroutine every `onJoin`, `onLeave` and meta event blocks on.
+
+    This is the theorem that is FALSE for the router before the fix of audit-C §0 (a testament with
+    `ppt_scheme` made the meta session abort itself: `handlePublish` by a meta session without the
+    feature appends `metaKey` to `ending`, see the example below). -/
+theorem C04_meta_never_ends (cfg : Config) (r : Realm) (h : ReachableK cfg r) :
+    metaKey ∉ r.ending ∧ (∀ t ∈ r.tasks, ∀ mode, t ≠ .leave metaKey mode) ∧
+    (∀ d ∈ r.deferred, d.1 ≠ metaKey) ∧ MetaSafe r := by
+  have hm := h.metaSafe
+  refine ⟨hm.ending, ?_, hm.deferred, hm⟩
+  intro t ht mode e
+  subst e
+  exact hm.tasks _ ht rfl
+
+/-- … kept by every single atomic action (so for every interleaving of the goroutines' actions, not only at
+    quiescence): external inputs, internal tasks, timeouts, retry turns. -/
+theorem C04_meta_safe_preserved (r : Realm) (hm : MetaSafe r) :
+    (∀ op, OpK op → MetaSafe (r.stepOp op)) ∧ (∀ t, MTaskOk t → MetaSafe (r.runTask t)) ∧
+    (∀ t, MetaSafe (r.timerDue t)) ∧ (∀ x ∈ r.retries, MetaSafe (r.retryDue x)) ∧
+    (∀ op, OpK op → MetaSafe (r.step op).2) :=
+  ⟨fun op h => hm.stepOp op h, fun t h => hm.runTask t h, fun t => hm.timerDue t, fun _ hx => hm.retryDue hx,
+   fun op h => hm.step op h⟩
+
+example (r : Realm) (hm : MetaSafe r) (t : Task) (ht : t ∈ r.tasks) : MTaskOk t := hm.tasks t ht
+
+-- what the theorem excludes: the pre-fix meta session (no roles) publishing a testament with `ppt_scheme`
+example : let old : Session := { key := metaKey, details := [], roles := [], isLocal := true }
+    (handlePublish {} old 0 [(OptPPTScheme, .str "x")] "some.topic" [] []).ending = [metaKey] := by
+  decide +kernel
+
+/-- the statement over ALL histories of the model's input type -/
+def C04_meta_never_ends_full : Prop :=
+  ∀ (cfg : Config) (r : Realm), Realm.Reachable cfg r → metaKey ∉ r.ending ∧ ∀ t ∈ r.tasks, ∀ mode, t ≠ .leave metaKey mode
+
+/-- … is FALSE, for a reason that is an artefact of the model's input type and not a router behaviour:
+    `Op.drop k` is accepted for ANY key, also for one that names no attached client — e.g. the meta session's
+    own key, for which no transport exists that a client could lose.  `stepOp (.drop k)` then puts `k` into
+    `ending`, the queued `leave k` finds no client and changes nothing, and `k` stays in `ending` for ever
+    (harmless for a client key; for `metaKey` it contradicts the statement).  The harness never produces such
+    an input.  Recommended model change: `stepOp (.drop k)` should be the identity when `k` is not an
+    attached client (or `Reachable` should restrict the inputs as `ReachableK` does). -/
+theorem C04_meta_never_ends_full_fails : ¬ C04_meta_never_ends_full := by
+  intro h
+  have hs : (Realm.create {}).isSome = true := by decide +kernel
+  obtain ⟨r0, h0⟩ := Option.isSome_iff_exists.mp hs
+  obtain ⟨_, _, hc, _, _, ht, hr, _⟩ := create_rinv h0
+  obtain ⟨_, _, he⟩ := create_metaSafe h0
+  have h1 := (h {} _ (Realm.Reachable.step (.drop metaKey) (Realm.Reachable.init h0))).1
+  rw [(drop_nonclient r0 metaKey ht hr (by rw [hc]; intro c hc'; cases hc') (by rw [he]; intro hin; cases hin)).1] at h1
+  exact h1 (List.mem_append_right _ (List.mem_singleton.mpr rfl))
+
+/-! ## A protocol violation, as an input -/
+
+/-- INPUT LEVEL.  A protocol violation arriving (`stepOp (.msg k m)`, through the gate of `recvMsg`) from an
+    attached session `k` that is not already ending and whose handler is not in the yield retry loop, and
+    that the authorization gate lets through (always the case without an Authorizer, for exempt local
+    sessions, and when the Authorizer allows the message): NOTHING happens but that the sender is marked as
+    ending and its departure `leave k (violation …)` (ABORT, then `onLeave`) is queued — no table, queue, or
+    other session is touched.
+    If an Authorizer REFUSES the message (it is consulted for every message type, `realm.go`
+    `handleInboundMessages`), the session is NOT ended: the router answers ERROR (or nothing) and goes on —
+    second part. -/
+theorem C04_violation_input (r : Realm) (k : SessKey) (s : Session) (m : Msg)
+    (hf : r.clients.find? (fun c => c.key == k) = some s) (hm : isViolation m = true)
+    (he : r.ending.contains k = false) (hb : r.busy k = false) :
+    ((authzGate r s m).1 = true →
+      ∃ text, r.stepOp (.msg k m) =
+        { r with tasks := r.tasks ++ [.leave k (.violation text)], ending := r.ending ++ [k] }) ∧
+    ((authzGate r s m).1 = false →
+      r.stepOp (.msg k m) = (authzGate r s m).2 ∧ (r.stepOp (.msg k m)).ending = r.ending ∧
+      (∀ t ∈ (r.stepOp (.msg k m)).tasks, t ∈ r.tasks ∨ ∃ a b c d e, t = .metaInvoke a b c d e) ∧
+      (r.stepOp (.msg k m)).clients = r.clients) := by
+  have hk : s.key = k := (find?_key hf).2
+  have e0 : r.stepOp (.msg k m) = handleMsg r s m := by
+    rw [stepOp_msg, recvMsg_eq, hf]
+    simp only [he, hb, Bool.false_eq_true, if_false]
+  rw [e0, handleMsg_eq]
+  constructor
+  · intro hg
+    rw [hg, authzGate_true hg]
+    simp only [if_true]
+    rw [← hk]
+    cases m
+    case error typ a b c d e =>
+      refine ⟨"invalid ERROR", ?_⟩
+      have : (typ != tINVOCATION) = true := hm
+      show (if typ != tINVOCATION then _ else _) = _
+      rw [if_pos this]
+    all_goals first
+      | exact ⟨"unexpected message", rfl⟩
+      | cases hm
+  · intro hg
+    rw [hg]
+    simp only [Bool.false_eq_true, if_false]
+    have h := eff_authzGate (P := fun _ => False) (Q := fun _ => False) r s m
+    obtain ⟨e, he1, pe⟩ := h.ending
+    obtain ⟨ts, hts, pts⟩ := authzGate_tasks r s m
+    have e0' : e = [] := by cases e with | nil => rfl | cons a _ => exact absurd (pe a (List.mem_cons_self ..)) id
+    refine ⟨trivial, by rw [he1, e0']; simp, ?_, h.clients⟩
+    intro t ht
+    rw [hts] at ht
+    rcases List.mem_append.mp ht with ht | ht
+    · exact Or.inl ht
+    · exact Or.inr (pts t ht)
+
+-- non-vacuity: an attached, idle session sends WELCOME; no Authorizer
+example : let s : Session := { key := 5, details := [], roles := [], isLocal := false }
+    (({ clients := [s] } : Realm).stepOp (.msg 5 (.welcome 1 []))).ending = [5] := by
+  decide +kernel
+
+/-! ## Isolation over a whole step -/
+
+/-- ISOLATION OVER THE WHOLE STEP.  `C04_isolation` is about the single atomic `leave x`; this is about the
+    INPUT that ends `x` (`EndsInput`: lost transport, GOODBYE, protocol violation let through by the gate)
+    and EVERYTHING it causes until the realm is quiet again: the departure, the meta events
+    (`on_unsubscribe`, `on_unregister`, `on_delete`, `on_leave`) and the testaments it queues for the meta
+    session, and their publication.  From a state satisfying the invariants with nothing pending, `x`
+    attached, not ending, its handler not in the retry loop, and unless the model's task fuel runs out:
+    * `x` is attached no more; every OTHER session is attached iff it was;
+    * every other session is a member of exactly the subscriptions, a callee of exactly the registrations it
+      was (`x` of none);
+    * the pending calls afterwards are exactly the old ones that `x` neither made nor served: every other
+      session's calls not served by `x` are still pending (the calls `x` served are answered with ERROR,
+      `C05_leave_served_calls`);
+    * the testament table is the old one without `x`'s bucket: nobody else's testament is touched, none is
+      published;
+    in particular no other session is ended, killed or aborted by the cascade (nothing but `leave x` and
+    `metaPub` tasks ever becomes pending: `OnlyLeaveX`, and the meta session cannot be ended by its own
+    publications: `C04_meta_never_ends`). -/
+theorem C04_isolation_step (r : Realm) (hi : RealmInv r) (hc : CtlInv r) (ht : r.tasks = []) (x : SessKey)
+    (hx : r.isClient x) (hb : r.busy x = false) (he : x ∉ r.ending) (op : Op) (hop : EndsInput r x op)
+    (hp : (r.step op).2.panic = none) :
+    ¬ (r.step op).2.isClient x ∧
+    (∀ k, k ≠ x → ((r.step op).2.isClient k ↔ r.isClient k)) ∧
+    (∀ k id, (r.step op).2.broker.isMember k id ↔ r.broker.isMember k id ∧ k ≠ x) ∧
+    (∀ id k, calleeRel (r.step op).2.ds.d.regs id k ↔ calleeRel r.ds.d.regs id k ∧ k ≠ x) ∧
+    (∀ c ∈ (r.step op).2.ds.d.calls, c ∈ r.ds.d.calls ∧ c.sess ≠ x ∧ ∀ v ∈ r.ds.d.invs, v.callee = x → v.callId ≠ c) ∧
+    (∀ c ∈ r.ds.d.calls, c.sess ≠ x → (∀ v ∈ r.ds.d.invs, v.callee = x → v.callId ≠ c) → c ∈ (r.step op).2.ds.d.calls) ∧
+    (r.step op).2.testaments = r.testaments.filter (fun t => t.1 != x) :=
+  step_isolated hi hc ht hx hb he hop hp
+
+/-- … for every history of client-level inputs (`ReachableC`) whose panic flag is clean. -/
+theorem C04_isolation_step_reachable (cfg : Config) (r : Realm) (h : ReachableC cfg r) (hp0 : r.panic = none) (x : SessKey)
+    (hx : r.isClient x) (hb : r.busy x = false) (he : x ∉ r.ending) (op : Op) (hop : EndsInput r x op)
+    (hp : (r.step op).2.panic = none) (k : SessKey) (hk : k ≠ x) :
+    ((r.step op).2.isClient k ↔ r.isClient k) ∧
+    (∀ id, (r.step op).2.broker.isMember k id ↔ r.broker.isMember k id) ∧
+    (∀ id, calleeRel (r.step op).2.ds.d.regs id k ↔ calleeRel r.ds.d.regs id k) ∧
+    (∀ c ∈ r.ds.d.calls, c.sess = k → (∀ v ∈ r.ds.d.invs, v.callId = c → v.callee ≠ x) → c ∈ (r.step op).2.ds.d.calls) ∧
+    (∀ t ∈ r.testaments, t.1 = k → t ∈ (r.step op).2.testaments) := by
+  obtain ⟨_, g2, g3, g4, _, g6, g7⟩ := C04_isolation_step r h.reachable.inv.1 h.ctl (Reachable.quiescent h.reachable hp0)
+    x hx hb he op hop hp
+  refine ⟨g2 k hk, fun id => ⟨fun h' => ((g3 k id).mp h').1, fun h' => (g3 k id).mpr ⟨h', hk⟩⟩,
+    fun id => ⟨fun h' => ((g4 id k).mp h').1, fun h' => (g4 id k).mpr ⟨h', hk⟩⟩, ?_, ?_⟩
+  · intro c hc hs hv
+    exact g6 c hc (hs ▸ hk) (fun v hv' hvx e => hv v hv' e hvx)
+  · intro t ht' htk
+    rw [g7]
+    exact List.mem_filter.mpr ⟨ht', by simpa [htk] using hk⟩
+
+-- non-vacuity: two attached sessions, nothing pending (both invariants hold); session 1 loses its transport
+example : let r0 : Realm := (({} : Realm).stepOp (.join 1 false [] [] 8)).stepOp (.join 2 false [] [] 8)
+    let r : Realm := { r0 with tasks := [] }
+    RealmInv r ∧ CtlInv r ∧ r.tasks = [] ∧
+    r.isClient 1 ∧ r.busy 1 = false ∧ 1 ∉ r.ending ∧ EndsInput r 1 (.drop 1) ∧ (r.step (.drop 1)).2.panic = none ∧
+    (r.step (.drop 1)).2.clients.map (·.key) = [2] := by
+  intro r0 r
+  have hi0 : RealmInv r0 := (stepOp_inv (stepOp_inv (RealmInv.empty []) _).1 _).1
+  have hc1 := ctlInv_empty.stepOp (.join 1 false [] [] 8)
+    ⟨by decide, (by intro c h; cases h), (by intro q h; cases h)⟩
+  have hc0 : CtlInv r0 := hc1.stepOp (.join 2 false [] [] 8) ⟨by decide, by
+    refine ⟨?_, ?_⟩
+    · intro c hcm; rw [stepOp_join] at hcm
+      have : c = { key := 1, details := [], roles := [], isLocal := false, cap := 8 } := by
+        simpa [Realm.addTasks] using hcm
+      rw [this]; decide
+    · intro q hq; rw [stepOp_join] at hq
+      have : q.1 = 1 := by
+        have : q = (1, []) := by simpa [Realm.addTasks] using hq
+        rw [this]
+      rw [this]; decide⟩
+  refine ⟨hi0.of_parts rfl hi0.binv hi0.dinv hi0.bmem hi0.dref hi0.callers hi0.retr (by intro t h; cases h) hi0.inb rfl,
+    hc0.congr ⟨hc0.safe.noClient, hc0.safe.ending, (by intro t h; cases h), hc0.safe.deferred, hc0.safe.retries,
+      hc0.safe.mkey, hc0.safe.metaPPT⟩ rfl rfl rfl rfl,
+    rfl, ⟨_, List.mem_cons_self .., rfl⟩, by decide +kernel, by decide +kernel, Or.inl rfl, by decide +kernel, by decide +kernel⟩
 
 end Nexus.C04
